@@ -251,6 +251,21 @@ class C18(Prop):
             doc = {'raw': M([('k', parent)])}
             later = M([(a, S(rng.randrange(9))) for a in rng.sample(['a', 'b', 'q'], rng.choice([1, 2]))], tag={'k': 'call', 'f': 'rec.f'})
             out[(5 * i + 1) % len(out)] = {'doc': doc, 'seq': [{'raw': M([('k', G.nest(path[1:], later) if path[1:] else later)])}] if rng.random() < 0.8 else [], 'style': ['flow', 0, 0]}
+        # a TAGGED node placed under two keys by an anchor / alias (one node object at two places), and a later stage that merges into
+        # one of the places: the dump has to keep the two places one node (seeded change S8-C18: the dumper wrote the second occurrence
+        # out in full). Node sharing is outside the model: oracle only.
+        for i in range(max(3, n // 15)):
+            body = rng.choice([lambda: M([('lr', S(1)), ('wd', S(5))], kw={'del': False}), lambda: Q([S(1), S(2), S(3)], kw={'del': False}),
+                               lambda: M([('lr', S(1))], kw={'prio': -1}), lambda: M([('a', S(1))], tag={'k': 'bind', 'f': 'rec.f'}, kw={'del': False})])()
+            a, b = rng.sample(['train', 'eval', 'test'], 2)
+            items = [(a, dict(body, anchor='o')), (b, {'alias': 'o'}), ('k', S(1))]
+            if rng.random() < 0.4:
+                items[1] = (b, M([('opts', {'alias': 'o'})]))
+            tgt = rng.choice([a, b])
+            patch = M([(1, S(99))]) if 'q' in body else M([(rng.choice(['lr', 'a', 'new']), S(9))])
+            if tgt == b and 'm' in items[1][1]:
+                patch = M([('opts', patch)])
+            out.append({'doc': {'raw': M(items)}, 'seq': [{'raw': M([(tgt, patch)])}], 'style': ['flow', 0, 0], 'shared': True})
         return out
 
     # ------------------------------------------------------------------ implementation
@@ -320,10 +335,10 @@ class C18(Prop):
 
     # ------------------------------------------------------------------ model
     def model_requests(self, case):
-        return [{'op': 'c18', 'docs': [case['doc']]}]
+        return [] if case.get('shared') else [{'op': 'c18', 'docs': [case['doc']]}]
 
     def model_obs(self, case, answers):
-        return answers[0]
+        return {'shared': True} if case.get('shared') else answers[0]
 
     def compare_model(self, case, io, mo):
         if 'bad' in mo:
@@ -356,6 +371,8 @@ class C18(Prop):
         return None
 
     def compare(self, case, io, mo):
+        if case.get('shared'):
+            return 'SKIP'
         d = self.compare_model(case, io, mo)
         if d and d != 'SKIP':
             return d
